@@ -165,7 +165,12 @@ Record wobs := WO {
 }.
 Inductive outcome := OErr | OOk (w : wobs).
 
-Record C15_case := Case { c_env : env; c_load : load_kind; c_obs : outcome }.
+(* A case loads 1-3 times: for a handle h() / h.clear(); h() / h.load(), for a
+   direct call once.  Per load: the serial of the World instance that came
+   back (in order of first appearance; the load's own number when it raised)
+   and what was observed of it.  Instances, callbacks and marks are counted
+   per load. *)
+Record C15_case := Case { c_env : env; c_load : load_kind; c_obs : list (Z * outcome) }.
 
 (* =========================== the model ======================================= *)
 
@@ -524,7 +529,14 @@ Definition outcome_eqb (a b : outcome) : bool :=
   | _, _ => false
   end.
 
-Definition accepts (c : C15_case) : bool := outcome_eqb (model (c_env c) (c_load c)) (c_obs c).
+(* every load runs the whole of WorldHandle.load again on a new World; nothing
+   the model reads is changed by a load (the transform functions stay in the
+   deque, a resource handle keeps the resource it has loaded) *)
+Definition accepts1 (E : env) (k : load_kind) (i : Z) (p : Z * outcome) : bool :=
+  (fst p =? i) && outcome_eqb (model E k) (snd p).
+
+Definition accepts (c : C15_case) : bool :=
+  forall2b (accepts1 (c_env c) (c_load c)) (zseq 0 (length (c_obs c))) (c_obs c).
 
 (* =========================== the property ===================================== *)
 (* forms of a string argument, read off the string alone *)
@@ -799,11 +811,19 @@ Definition spec_ok (E : env) (k : load_kind) (w : wobs) : bool :=
      end.
 
 (* an aborted load is tolerated only when some argument is of an open form *)
-Definition holds_b (c : C15_case) : bool :=
-  match c_obs c with
-  | OErr => has_open (c_env c) (steps_of (c_load c))
-  | OOk w => spec_ok (c_env c) (c_load c) w
+Definition holds1 (E : env) (k : load_kind) (o : outcome) : bool :=
+  match o with
+  | OErr => has_open E (steps_of k)
+  | OOk w => spec_ok E k w
   end.
+
+(* every load, independently: a World instance not seen before, and the
+   whole specification again *)
+Definition load_ok (E : env) (k : load_kind) (i : Z) (p : Z * outcome) : bool :=
+  (fst p =? i) && holds1 E k (snd p).
+
+Definition holds_b (c : C15_case) : bool :=
+  forall2b (load_ok (c_env c) (c_load c)) (zseq 0 (length (c_obs c))) (c_obs c).
 Definition holds (c : C15_case) : Prop := holds_b c = true.
 
 (* =========================== the domain ======================================= *)
@@ -908,11 +928,10 @@ Definition kind_wf (k : load_kind) : bool :=
   | _ => true
   end.
 
-Definition wf_b (c : C15_case) : bool :=
-  let E := c_env c in
-  let steps := steps_of (c_load c) in
+Definition wf_k (E : env) (k : load_kind) : bool :=
+  let steps := steps_of k in
   ns_wf E
-  && kind_wf (c_load c)
+  && kind_wf k
   && forallb (step_wf E) steps
   && znodup (flat_map (step_ptypes E) steps)            (* one processor per exact class, over all steps *)
   && ids_wf (flat_map step_ents steps) [] 1.            (* no id given twice, over all steps *)
@@ -944,8 +963,11 @@ Definition dict_known (E : env) (hd : how * ddict) : bool :=
   | HDict => false
   end.
 
-Definition known_b (c : C15_case) : bool :=
-  existsb (dict_known (c_env c)) (all_hdicts (steps_of (c_load c))).
+Definition known_k (E : env) (k : load_kind) : bool :=
+  existsb (dict_known E) (all_hdicts (steps_of k)).
+
+Definition wf_b (c : C15_case) : bool := wf_k (c_env c) (c_load c).
+Definition known_b (c : C15_case) : bool := known_k (c_env c) (c_load c).
 
 Definition bit (b : bool) (n : nat) : nat := if b then n else 0%nat.
 Definition C15_verdict (c : C15_case) : nat :=
